@@ -1,6 +1,7 @@
 package checks
 
 import (
+	"math"
 	"encoding/json"
 	"fmt"
 	"time"
@@ -49,6 +50,14 @@ func c11Vals() []c11Val {
 		{"regex-special", func() *rt.Node { return S("a.b(c)$1aa") }, "a.b(c)$1aa", true, true},
 		{"floatstr", func() *rt.Node { return S("-3.5") }, "-3.5", true, true},
 		{"boolstr", func() *rt.Node { return S("true") }, "true", true, true},
+		{"zero-padded", func() *rt.Node { return S("010") }, "010", true, true},
+		{"hexstr", func() *rt.Node { return S("0x1f") }, "0x1f", true, true},
+		{"underscored", func() *rt.Node { return S("1_000") }, "1_000", true, true},
+		{"expstr", func() *rt.Node { return S("1e3") }, "1e3", true, true},
+		{"bigfloat", func() *rt.Node { return rt.Float(1e19) }, 1e19, true, false},
+		{"negzero", func() *rt.Node { return rt.Float(math.Copysign(0, -1)) }, math.Copysign(0, -1), true, false},
+		{"maxint", func() *rt.Node { return I(math.MaxInt64) }, int64(math.MaxInt64), true, false},
+		{"integral-float", func() *rt.Node { return rt.Float(3) }, 3.0, true, false},
 		{"list", func() *rt.Node { return rt.List(I(1), S("a")) }, nil, false, false},
 		{"map", func() *rt.Node { return rt.Map(S("a"), I(1)) }, nil, false, false},
 		{"nil", func() *rt.Node { return rt.Nil() }, nil, true, false},
@@ -284,7 +293,7 @@ func init() {
 		Level: "model_checking",
 		Rule: "45 call templates of the 15 builtins (every optional argument present/absent, identifier/attribute/string/expression arguments, all cast types, good and bad regular expressions, format strings with matching and mismatching verbs) " +
 			"x 6 key spellings (identifier, back-quoted, string literal, `_`, attribute expression, attribute expression with an index) x 6 subject situations (variable only, field only, tag only, variable shadowing a field, variable shadowing a tag, absent) " +
-			"x 24 subject values (int, float, bool, plain/padded/url-encoded/'+' without '%'/trailing '%'/percent-encoded UTF-8/undecodable/JSON/JSON with trailing text/numeric/float/bool/non-ASCII/tab+newline/regex-special/empty strings, list, map, nil) x 3 base points; " +
+			"x 32 subject values (int incl. the largest, float incl. 1e19, -0.0 and an integral one, bool, zero-padded / hex / underscored / exponent numeric strings, plain/padded/url-encoded/'+' without '%'/trailing '%'/percent-encoded UTF-8/undecodable/JSON/JSON with trailing text/numeric/float/bool/non-ASCII/tab+newline/regex-special/empty strings, list, map, nil) x 3 base points; " +
 			"oracle: the whole canonical final point (so every other key is checked untouched), captured standard output, probe trace of return values, of a plain-expression read of the subject key directly after the builtin and of three get_key read-backs, error flag — all equal to the reference builtins",
 		Assumptions: []string{"strings, regexp, net/url, fmt, encoding/json and spf13/cast are the trusted base the reference shares with the code", "unspecified cells: cast of collections / non-numeric strings, cast to \"string\", rename onto an existing key, set_tag from a construct without value"},
 		Run:            c11Run,
